@@ -499,8 +499,14 @@ FIXED = {
 }
 
 
+def op_params(fn):
+    ps = [p["pat"]["name"] if p["pat"]["t"] == "PIdent" else None for p in fn["sig"]["inputs"] if p["t"] == "Arg"]
+    return ps if len(ps) == 5 else ["cxt", "mem", "ip", "r0", "r1"]
+
+
 def slot_reads(ast, fn):
     """{k: (field, local name)} for `let x = (*ip.add(k)).field`"""
+    ipn = op_params(fn)[2]
     out = {}
     for l in walk_t(fn["body"], "Local"):
         if l["init"] is None:
@@ -510,7 +516,7 @@ def slot_reads(ast, fn):
             b = strip_paren(e["base"])
             if b["t"] == "Unary" and b["op"] == "*":
                 x = strip_paren(b["expr"])
-                if x["t"] == "MethodCall" and x["method"] == "add" and path_name(x["receiver"]) == "ip" and int_lit(x["args"][0]) is not None:
+                if x["t"] == "MethodCall" and x["method"] == "add" and path_name(x["receiver"]) == ipn and int_lit(x["args"][0]) is not None:
                     out[int_lit(x["args"][0])] = (e["member"], l["pat"].get("name"))
     return out
 
@@ -518,12 +524,13 @@ def slot_reads(ast, fn):
 def role_of(ast, fn, var):
     """How an operand local is used inside an op function."""
     roles = set()
+    _, memn, ipn, _, _ = op_params(fn)
     for m in walk_t(fn["body"], "MethodCall"):
         if m["method"] in ("offset", "wrapping_offset") and len(m["args"]) == 1 and path_name(m["args"][0]) == var:
             recv = path_name(m["receiver"])
-            if recv == "mem":
+            if recv == memn:
                 roles.add("mem-offset")
-            elif recv == "ip":
+            elif recv == ipn:
                 roles.add("target")
     par_cmp = []
     for b in walk_t(fn["body"], "Binary"):
@@ -532,7 +539,7 @@ def role_of(ast, fn, var):
                 if m["method"] == "offset" and path_name(m["args"][0]) == var:
                     roles.add("cond")
     for a in walk_t(fn["body"], "Assign"):
-        if path_name(a["left"]) == "mem":
+        if path_name(a["left"]) == memn:
             for m in walk_t(a["right"], "MethodCall"):
                 if m["method"] in ("offset", "wrapping_offset") and m["args"] and path_name(m["args"][0]) == var:
                     roles.add("shift")
@@ -557,9 +564,9 @@ def run_bc_fixed(res, ast):
              "SAFE instantiation are selected by `shift < 0` and `safe`", floor=10, what="(bytecode, op) pairs")
     try:
         emit = ast.fn(OPS, "emit")["node"]
-        ms = [m for m in walk_t(emit["body"], "Match") if path_name(strip_paren(m["expr"])) == "instr"]
+        ms = [m for m in walk_t(emit["body"], "Match") if sum(1 for a_ in m["arms"] if a_["pat"]["t"] in ("PTupleStruct", "PPath") and a_["pat"]["path"]["name"].startswith("Instr::")) >= 5]
         if len(ms) != 1:
-            raise Missing("`match instr` in emit")
+            raise Missing("the dispatching `match <instr>` in emit")
         arms = {}
         for a in ms[0]["arms"]:
             p = a["pat"]
@@ -576,7 +583,7 @@ def run_bc_fixed(res, ast):
         pvars = [e.get("name") if e["t"] == "PIdent" else None for e in a["pat"]["elems"]]
         pushes = []
         for m in walk_t(a["body"], "MethodCall"):
-            if m["method"] == "push" and path_name(m["receiver"]) == "insts" and m["args"][0]["t"] == "StructExpr":
+            if m["method"] == "push" and m["args"] and m["args"][0]["t"] == "StructExpr" and m["args"][0]["path"]["name"] == "OpCode":
                 f = m["args"][0]["fields"][0]
                 pushes.append((f["member"], f["expr"], m))
         # group: op pushes are alternatives (if/else), operand pushes follow
@@ -620,7 +627,7 @@ def run_bc_fixed(res, ast):
             # continuation
             conts = [c for c in walk_t(fn["body"], "Call") if path_name(c["func"]) == "noop"]
             n = len(operand_pushes) + 1
-            fall = [c for c in conts if ast.src1(OPS, c["args"][2]).replace(" ", "") == f"ip.add({n})"]
+            fall = [c for c in conts if ast.src1(OPS, c["args"][2]).replace(" ", "") == f"{op_params(fn)[2]}.add({n})"]
             if not fall:
                 errs.append(f"no continuation at ip.add({n}) (the writer pushes {n} words)")
             res.check(not errs, "BC-FIXED", key, w, f"Instr::{ctor} / {fname}: " + "; ".join(errs))
@@ -629,7 +636,8 @@ def run_bc_fixed(res, ast):
             try:
                 ab = ast.fn(OPS, "adjust_branch")["node"]
                 asg = [x for x in walk_t(ab["body"], "Assign")]
-                ok = len(asg) == 1 and ast.src1(OPS, asg[0]["left"]).replace(" ", "") == "branch_instr[2].off"
+                import pm
+                ok = len(asg) == 1 and pm.match_expr(asg[0]["left"], "__v_b[2].off") is not None
                 res.check(ok, "BC-FIXED", f"{OPS}|adjust_branch|{ctor}", where(OPS, ab, "adjust_branch"),
                           "adjust_branch must patch word 2 (`off`) - the word brz/brnz read as their target")
             except Missing as m:
@@ -639,7 +647,8 @@ def run_bc_fixed(res, ast):
         a = arms.get(ctor)
         if a is None:
             continue
-        sel = selection_table(ast, a)
+        sp_ = [p_["pat"]["name"] for p_ in emit["sig"]["inputs"] if p_["t"] == "Arg"]
+        sel = selection_table(ast, a, sp_[2] if len(sp_) == 3 else "safe")
         want = {(True, True): f"{l}::<_,true>", (True, False): f"{l}::<_,false>", (False, True): f"{r}::<_,true>", (False, False): f"{r}::<_,false>"}
         res.check(sel == want, "BC-FIXED", f"{OPS}|emit|{ctor}|selection", where(OPS, a, "emit"),
                   f"Instr::{ctor}: op selection by (shift < 0, safe) is {sel}, expected {want}")
@@ -653,16 +662,18 @@ def run_bc_fixed(res, ast):
             reads = slot_reads(ast, fn)
             ok = len(flds) == nwords and flds[0] == ("op", fname) and all(reads.get(k, (None,))[0] == flds[k][0] for k in range(1, nwords)) and sorted(reads) == list(range(1, nwords))
             if fname == "limit":
-                ok = ok and flds[1] == ("idx", "cost") and all(ast.src1(OPS, c["args"][2]).replace(" ", "") == "ip.add(2)" for c in walk_t(fn["body"], "Call") if path_name(c["func"]) == "noop")
+                hp = [p_["pat"]["name"] for p_ in h["sig"]["inputs"] if p_["t"] == "Arg"]
+                ok = ok and flds[1] == ("idx", hp[1] if len(hp) == 2 else "cost") and all(ast.src1(OPS, c["args"][2]).replace(" ", "") == f"{op_params(fn)[2]}.add(2)" for c in walk_t(fn["body"], "Call") if path_name(c["func"]) == "noop")
             res.check(ok, "BC-FIXED", f"{OPS}|{helper}|{fname}", where(OPS, h, helper),
                       f"{helper} pushes {flds}; `{fname}` reads {reads}: writer and reader disagree")
         except Missing as m:
             res.missing("BC-FIXED", m)
 
 
-def selection_table(ast, arm):
+def selection_table(ast, arm, safe_name="safe"):
     """(shift<0, safe) -> op pushed, by walking the if/else tree of an emit arm."""
     out = {}
+    shift_name = arm["pat"]["elems"][-1].get("name") if arm["pat"]["t"] == "PTupleStruct" else "shift"
 
     def walk_if(e, neg, safe):
         e = strip_paren(e)
@@ -674,12 +685,12 @@ def selection_table(ast, arm):
             return
         if e["t"] == "If":
             c = ast.src1(OPS, e["cond"]).replace(" ", "")
-            if c == "shift<0":
+            if c == f"{shift_name}<0":
                 walk_if({"t": "BlockExpr", "block": e["then"]}, True, safe)
                 if e["else"] is not None:
                     walk_if(e["else"], False, safe)
                 return
-            if c == "safe":
+            if c == safe_name:
                 walk_if({"t": "BlockExpr", "block": e["then"]}, neg, True)
                 if e["else"] is not None:
                     walk_if(e["else"], neg, False)
@@ -757,19 +768,22 @@ def run_bc_thread(res, ast):
         res.bad("BC-THREAD", f"{OPS}|op-count", OPS, f"only {len(opfns)} functions of the Op signature found")
     # limit's exhausted path spills like debug noop; enter_ops reloads
     try:
+        import pm
         lim = ast.fn(OPS, "limit")["node"]
-        txt = ast.src1(OPS, lim["body"], 800).replace(" ", "")
-        ok = "temps_ptr(cxt).add(0).write(r0);" in txt and "temps_ptr(cxt).add(1).write(r1);" in txt and "(*cxt).context.memory.set_current_ptr(mem);" in txt
-        res.check(ok, "BC-THREAD", f"{OPS}|limit|spill", where(OPS, lim, "limit"), "the exhausted path of `limit` must spill r0, r1 and mem before returning to the trampoline")
+        lp = op_params(lim)
+        envl = {"__v_cxt": lp[0], "__v_mem": lp[1], "__v_r0": lp[3], "__v_r1": lp[4]}
+        hit = [i_ for i_ in walk_t(lim["body"], "If") if pm.match_stmts(i_["then"]["stmts"],
+               "__rest; temps_ptr(__v_cxt).add(0).write(__v_r0); temps_ptr(__v_cxt).add(1).write(__v_r1); (*__v_cxt).context.memory.set_current_ptr(__v_mem); __rest;", envl)]
+        res.check(bool(hit), "BC-THREAD", f"{OPS}|limit|spill", where(OPS, lim, "limit"), "the exhausted path of `limit` must spill r0, r1 and mem before returning to the trampoline")
         eo = ast.fn(OPS, "enter_ops")["node"]
-        txt = ast.src1(OPS, eo["body"], 800).replace(" ", "")
-        ok = ("letr0=*temps_ptr(cxt).add(0);" in txt and "letr1=*temps_ptr(cxt).add(1);" in txt and "letmem=(*cxt).context.memory.current_ptr();" in txt
-              and txt.rstrip("}").endswith("((*ip).op)(cxt,mem,ip,r0,r1)"))
-        res.check(ok, "BC-THREAD", f"{OPS}|enter_ops|reload", where(OPS, eo, "enter_ops"),
-                  "enter_ops must reload r0 <- temps[0], r1 <- temps[1], mem <- memory.current_ptr() and enter ((*ip).op)(cxt, mem, ip, r0, r1)")
-        i_ma = txt.find("make_accessible")
-        i_cp = txt.find("current_ptr()")
-        res.check(0 <= i_ma < i_cp, "BC-THREAD", f"{OPS}|enter_ops|order", where(OPS, eo, "enter_ops"),
+        ep = [p_["pat"]["name"] for p_ in eo["sig"]["inputs"] if p_["t"] == "Arg"]
+        be = pm.match_stmts(eo["body"]["stmts"],
+                            "(*__v_cxt).context.memory.make_accessible((*__v_cxt).min_accessed, (*__v_cxt).max_accessed + 1); let __v_r0 = *temps_ptr(__v_cxt).add(0); "
+                            "let __v_r1 = *temps_ptr(__v_cxt).add(1); let __v_mem = (*__v_cxt).context.memory.current_ptr(); ((*__v_ip).op)(__v_cxt, __v_mem, __v_ip, __v_r0, __v_r1)",
+                            {"__v_cxt": ep[0], "__v_ip": ep[1]} if len(ep) == 2 else {})
+        res.check(be is not None, "BC-THREAD", f"{OPS}|enter_ops|reload", where(OPS, eo, "enter_ops"),
+                  "enter_ops must make the window accessible, then reload r0 <- temps[0], r1 <- temps[1], mem <- memory.current_ptr() and enter ((*ip).op)(cxt, mem, ip, r0, r1)")
+        res.check(be is not None, "BC-THREAD", f"{OPS}|enter_ops|order", where(OPS, eo, "enter_ops"),
                   "enter_ops must take the tape pointer after make_accessible (the buffer may move)")
     except Missing as m:
         res.missing("BC-THREAD", m)
@@ -783,9 +797,9 @@ def run_layout_pair(res, ast, rule):
         fc = ast.fn(BCMOD, "free_context")["node"]
 
         def layout(fn):
-            for l in walk_t(fn["body"], "Local"):
-                if l["pat"].get("name") == "layout":
-                    return " ".join(ast.src(BCMOD, l["init"]).split())
+            for c in walk_t(fn["body"], "Call"):
+                if path_name(c["func"]) == "Layout::from_size_align":
+                    return " ".join(" ".join(ast.src(BCMOD, a_).split()) for a_ in c["args"])
             return None
         la, lb = layout(bc_), layout(fc)
         res.check(la is not None and la == lb and ".max(2)" in la.replace(" ", ""), rule, f"{BCMOD}|context-layout",
